@@ -323,8 +323,10 @@ def gen_response_trace(rng, tid):
         if rng.random() < 0.5:
             op["c"] = "httproot"
         ops.append(op)
-        if rng.random() < 0.3:
-            ops.append({"op": "flush", "stream": 1, "topic": 1, "partition": part})
+        if rng.random() < 0.4:
+            ops.append({"op": "flush", "stream": 1, "topic": 1, "partition": part, "fsync": rng.random() < 0.5})
+            if rng.random() < 0.5:
+                ops[-1]["c"] = "httproot"
     for p in range(1, nparts + 1):
         if sent[p] and rng.random() < 0.7:
             ops.append({"op": "store_offset", "stream": 1, "topic": 1, "partition": p, "offset": rng.randrange(len(sent[p])), "consumer": {"kind": "consumer", "id": 5}})
